@@ -187,6 +187,9 @@ _ADD6 = {
 for _k, _v in _ADD6.items():
     TEXT[_k]["level_text"] += _v
 _ADD7 = {
+ "C02": " Montgomery-limb-steered triples: the wrapped difference of the two scalars the signer subtracts is chosen limb by limb from {0, 1, 2^64-1, 2^64-n_i, 2^64-n_i-1, seeded} (6^4 patterns, with and without borrow, both forms s = t - r and (k - rd)/(1+d)), with (r, k, e) solved for a fixed key.",
+ "C12": " CheckOnCurve on canonical points whose x lies at a word boundary (p-2^(64i)+-j, 2^(64i)+-j, low 32/64 bits all ones) or at the special x of the verification equation, each also swapped and as x+p.",
+ "C15": " The in-package seam reports a decoder that refuses a canonical field element (and goes on with the Montgomery image) instead of stopping the driver.",
  "C03": " The final reduction (e + x1) mod n with e chosen from the boundary digests {0, n-1, n, n+1, 2^256-2, 2^256-1, kn-x1-1, kn-x1} and the result point steered to every special x1, so that the sum lies in [0,n), [n,2n) and [2n, 2^257).",
  "C13": " Five public keys with one or two leading zero bytes in x, in y or in both through ZA and all five message-level entry points.",
  "C17": " Scenario S7: valid signatures whose multiplier of the public key (t = 1, 3, 2^13) or of G (s = 1, n-1) is tiny, verified next to ordinary Verify / DerivePublic / SignHashed (start-up branches of the double multiplication with an empty accumulator).",
